@@ -47,7 +47,7 @@ import (
 	kit "verifkit"
 )
 
-const c07Rule = "sessions on the asynchronous rig: peer A iBGP/eBGP x RR-client x IPv6 configured x import policy {accept-all, set-local-pref, set-MED, prepend, set-next-hop} x bystander peer (same/different local AS); 1-3 rounds of {establish on a fresh conn, 0-4 UPDATEs announcing/withdrawing prefixes of an 8-prefix universe (one overlaps the bystander's route), exit in {NOTIFICATION, hold-timer expiry (OPEN hold 4 s), keepalive send failure (60 ms local hold, conn made write-failing), malformed message (10 header/attribute/NLRI mutations), unexpected OPEN, peer.stop(), DisposePeer (+AddPeer again), AutomaticStop, Cease}}. Non-trivial: an exit other than NOTIFICATION taken while >= 1 route of the session was installed in the Loc-RIB."
+const c07Rule = "sessions on the asynchronous rig: peer A iBGP/eBGP x RR-client x IPv6 configured x import policy {accept-all, set-local-pref, set-MED, prepend, set-next-hop} x bystander peer (same/different local AS, established before or after A); 1-3 rounds of {establish on a fresh conn, 0-4 UPDATEs announcing/withdrawing prefixes of an 8-prefix universe (one overlaps the bystander's route), exit in {NOTIFICATION, hold-timer expiry (OPEN hold 4 s), keepalive send failure (60 ms local hold, conn made write-failing), malformed message (10 header/attribute/NLRI mutations), unexpected OPEN, peer.stop(), DisposePeer (+AddPeer again), AutomaticStop, Cease} x {NOTIFICATION writes succeed, fail}}. Non-trivial: an exit other than NOTIFICATION taken while >= 1 route of the session was installed in the Loc-RIB."
 
 const (
 	c07ExitNotification = iota
@@ -73,9 +73,10 @@ type c07Upd struct {
 }
 
 type c07Round struct {
-	Upds []c07Upd
-	Exit int
-	Mal  int
+	Upds      []c07Upd
+	Exit      int
+	Mal       int
+	NotifFail bool // every NOTIFICATION written from the exit on fails (fault injected on the conn)
 }
 
 type c07Case struct {
@@ -84,6 +85,7 @@ type c07Case struct {
 	V6        bool
 	Bystander bool
 	BySameAS  bool
+	ByLate    bool // the bystander establishes after A's first session did (its contributions are registered after A's)
 	FastKA    bool
 	Policy    int
 	Rounds    []c07Round
@@ -91,7 +93,7 @@ type c07Case struct {
 
 func (c c07Case) String() string {
 	var sb strings.Builder
-	fmt.Fprintf(&sb, "ibgp=%v rr=%v v6=%v bystander=%v sameAS=%v fastKA=%v policy=%d", c.IBGP, c.RR, c.V6, c.Bystander, c.BySameAS, c.FastKA, c.Policy)
+	fmt.Fprintf(&sb, "ibgp=%v rr=%v v6=%v bystander=%v sameAS=%v late=%v fastKA=%v policy=%d", c.IBGP, c.RR, c.V6, c.Bystander, c.BySameAS, c.ByLate, c.FastKA, c.Policy)
 	for i, r := range c.Rounds {
 		fmt.Fprintf(&sb, " | round%d", i)
 		for _, u := range r.Upds {
@@ -100,6 +102,9 @@ func (c c07Case) String() string {
 		fmt.Fprintf(&sb, " exit=%s", c07ExitNames[r.Exit])
 		if r.Exit == c07ExitMalformed {
 			fmt.Fprintf(&sb, "#%d", r.Mal)
+		}
+		if r.NotifFail {
+			sb.WriteString("+notification-write-fails")
 		}
 	}
 	return sb.String()
@@ -115,6 +120,7 @@ var c07Gen = rapid.Custom(func(t *rapid.T) c07Case {
 	c.Bystander = rapid.IntRange(0, 2).Draw(t, "bystander") != 0
 	if c.Bystander {
 		c.BySameAS = rapid.Bool().Draw(t, "sameAS")
+		c.ByLate = rapid.Bool().Draw(t, "late")
 	}
 	c.FastKA = rapid.IntRange(0, 3).Draw(t, "fastKA") == 0
 	c.Policy = rapid.IntRange(0, 4).Draw(t, "policy")
@@ -159,6 +165,9 @@ var c07Gen = rapid.Custom(func(t *rapid.T) c07Case {
 		r.Exit = rapid.SampledFrom(kinds).Draw(t, "exit")
 		if r.Exit == c07ExitMalformed {
 			r.Mal = rapid.IntRange(0, c07NumMalformed-1).Draw(t, "mal")
+		}
+		if r.Exit != c07ExitNotification && r.Exit != c07ExitKeepaliveFail {
+			r.NotifFail = rapid.IntRange(0, 3).Draw(t, "notif_fail") == 0
 		}
 		c.Rounds = append(c.Rounds, r)
 	}
@@ -534,10 +543,7 @@ func (x *c07Run) run() *c07Violation {
 		panic(err)
 	}
 
-	if c.Bystander {
-		if err := x.r.srv.AddPeer(x.r.c00PeerCfg(x.bIP, local, x.bLocalAS, 65002)); err != nil {
-			panic(err)
-		}
+	upBystander := func() {
 		ok := false
 		for try := 0; try < 4 && !ok; try++ {
 			x.bConn, x.bFSM = x.r.c00Connect(x.bIP)
@@ -551,10 +557,18 @@ func (x *c07Run) run() *c07Violation {
 		if got := x.r.c00RIBFromPeer(x.bIP, false); len(got) != 1 || c00State(x.bFSM) != stateNameEstablished {
 			panic(c00Inconclusive{fmt.Sprintf("bystander route not installed: %v", got)})
 		}
+	}
+	if c.Bystander {
+		if err := x.r.srv.AddPeer(x.r.c00PeerCfg(x.bIP, local, x.bLocalAS, 65002)); err != nil {
+			panic(err)
+		}
 		defer func() {
 			// tidy up (keeps 1 s tick goroutines from piling up over many cases)
 			go x.r.srv.DisposePeer(x.r.vrf, x.bIP.Dedup())
 		}()
+		if !c.ByLate {
+			upBystander()
+		}
 	}
 	x.base4, x.base6 = x.clientCounts()
 
@@ -584,6 +598,11 @@ func (x *c07Run) run() *c07Violation {
 		}
 		if c4 != x.base4+1 || c6 != want6 {
 			return c07V("C07/established-clients", "round %d: Loc-RIB client counts while Established are v4=%d v6=%d, want %d/%d", ri, c4, c6, x.base4+1, want6)
+		}
+		if ri == 0 && c.Bystander && c.ByLate {
+			upBystander()
+			x.base4++ // the bystander's Adj-RIB-Out (IPv4 only) is a Loc-RIB client from now on
+			x.classes["bystander_established_after_A"] = true
 		}
 		ann := x.outQuiesce(f, conn)
 		if s := c00State(f); s != stateNameEstablished {
@@ -625,6 +644,15 @@ func (x *c07Run) run() *c07Violation {
 		// ---- exit
 		exitName := c07ExitNames[rd.Exit]
 		tolerated := false
+		if rd.NotifFail {
+			conn.SetWriteFault(func(b []byte) error {
+				if len(b) >= 19 && b[18] == kit.MsgNotification {
+					return errors.New("c07: connection reset by peer")
+				}
+				return nil
+			})
+			x.classes["notification_write_fails_"+exitName] = true
+		}
 		switch rd.Exit {
 		case c07ExitNotification:
 			conn.Feed(kit.Notification(6, 2, nil))
@@ -696,6 +724,9 @@ func (x *c07Run) run() *c07Violation {
 		wantASN := c.Bystander && c.BySameAS
 		if got := x.r.vrf.IsContributingASN(x.localAS); got != wantASN {
 			return c07V("C07/contributing-asn:"+exitName, "%s: IsContributingASN(%d) = %v, want %v", where, x.localAS, got, wantASN)
+		}
+		if c.Bystander && !x.r.vrf.IsContributingASN(x.bLocalAS) {
+			return c07V("C07/bystander-asn:"+exitName, "%s: the local AS %d of the bystander session (still Established) no longer contributes to the VRF's loop detection", where, x.bLocalAS)
 		}
 		if c.RR && x.r.vrf.IsContributingClusterID(x.cluster) {
 			return c07V("C07/contributing-cluster:"+exitName, "%s: IsContributingClusterID(%#x) still true", where, x.cluster)
